@@ -872,7 +872,7 @@ func (in *Interp) callBuiltin(caller *frame, fn *ssa.Builtin, args []Value) Valu
 		}
 		return acc
 	case "panic":
-		panic(targetPanic{v: args[0], msg: in.panicMsg(args[0])})
+		panic(targetPanic{v: args[0], msg: in.panicMsg(args[0]), stack: in.stackTrace()})
 	case "recover":
 		return in.doRecover(caller)
 	case "ssa:wrapnilchk":
